@@ -14,6 +14,19 @@ from .spec import Disp, derived, feasible, reach, rng, imp, zmax
 LEMMAS = {}
 
 
+class Facts(list):
+    """the facts of `after_call` with the clause name each comes from (None: frame / path facts)"""
+
+    def only(self, *names, pre=None, post=None):
+        """frame facts + the named clauses (`pre` / `post`: names restricted to the pre- / post-state
+        instance of a clause that occurs in both)"""
+        out = []
+        for f, (nm, side) in zip(self, self.names):
+            if nm is None or nm in names or (side == "pre" and nm in (pre or ())) or (side == "post" and nm in (post or ())):
+                out.append(f)
+        return out
+
+
 def after_call(con, args, tag="C"):
     """What a caller knows after a normal return of `con`: pre-condition, none of the
     exceptional conditions, the frame (exactly as the verifier havocs it) and the
@@ -21,18 +34,23 @@ def after_call(con, args, tag="C"):
     from pyvc.engine import Ctx, Engine, State
     h0 = Heap(tag=tag + "0")
     st = State({}, h0, [h0.alloc > 0])
+    side = {}
     c0 = Ctx(None, h0, h0, args)
-    for _, p in con.requires(c0):
-        st.assume(p)
+    for n, p in con.requires(c0):
+        st.assume(p, n)
+        side[len(st.pc) - 1] = "pre"
     for _, _, w in con.raises(c0):
         st.assume(z3.Not(w))
     eng = Engine(None, {}, {})
     h1 = eng.havoc(st, con.modifies(c0), h0)
     if con.ret is None or con.ret.kind == "none":
-        for _, p in con.ensures(Ctx(None, h0, h1, args)):
-            st.assume(p)
+        for n, p in con.ensures(Ctx(None, h0, h1, args)):
+            st.assume(p, n)
+            side[len(st.pc) - 1] = "post"
     # (contracts with a result: the caller instantiates `ensures` with its own result symbol)
-    return h0, h1, list(st.pc)
+    facts = Facts(st.pc)
+    facts.names = [(st.tags.get(i), side.get(i)) for i in range(len(st.pc))]
+    return h0, h1, facts
 
 
 def lemma(name, properties=()):
